@@ -295,3 +295,10 @@ def join_values(V, sv, jtype, level):
                 want = T.sadd(orig, sh) if jtype == 'add' else T.ssub(orig, sh)
                 out.prove('row-%d-is-zero-padded-original-%s-copy-shifted-by-%d' % (i, 'plus' if jtype == 'add' else 'minus', j), T.seq(r[i, k], want))
         out.unchanged('x', x)
+
+
+from pyvc.api import int_variant
+int_variant('C19', 'calc_surface_energy', ['x'])
+int_variant('C19', 'get_time_shift_motions', ['x'])
+int_variant('C19', 'put_array_in_2d_array', ['x'])
+int_variant('C19', 'join_values_w_shifts', ['x'])
